@@ -10,16 +10,48 @@ NOTE_BASE = ('Trusted: Coq 8.16.1 kernel + VM (vm_compute, no native_compute, no
              'sorted/itertools re-stated by hand and tied by correspondence only. Property theorems: Closed under the '
              'global context (checked on every run by Print Assumptions).')
 
+PARTIAL_NOTE = ' STATUS partial: see the header of coq/Properties/%s.v for exactly which part is a theorem and which part is decided by the correspondence alone.'
+
 CLAIMED = {
     'C01': ('Theorems (all contexts, all widths, all argument lists): the translated prime loop equals the comprehension-style '
             'derivation; intension/extension = filter of the columns/rows all arguments have, once, in context order; '
             'empty -> all; set-only dependence; raw = label form; unknown label -> KeyError. Tie: kernel regenerated from '
             'source + reflexivity, and vm_compute correspondence on EXH/FAM/WIDE/RND x all subsets.',
             'proof + regenerated kernel + differential correspondence', '7 C01'),
+    'C02': ('Theorems: Context.__getitem__ on objects returns (A\'\', A\'), on properties (B\', B\'\') via the proved double/doubleprime loops; '
+            'the result is a formal concept, contains the query, is the least such, closure extensive/monotone/idempotent; the mapping '
+            'lookup returns the member with exactly that extent. Lattice-level totality of the lookup rests on C03 (correspondence).' + PARTIAL_NOTE % 'C02',
+            'proof (context level) + differential correspondence (lattice level)', '7 C02'),
+    'C03': ('Executable Gallina model of lindig.lattice / neighbors (kernel regenerated from source) evaluated in Coq against the '
+            'implementation on every table with rows*cols<=9 (12 thorough), scales, wide and random tables; theorems so far: generated '
+            'candidates are formal concepts, bottom least, top greatest, all-crosses singleton.' + PARTIAL_NOTE % 'C03',
+            'differential correspondence against a Coq model; partial proof', '7 C03'),
+    'C05': ('Model of the neighbour search and of the converse links evaluated against the implementation (all concepts; '
+            'Context.neighbors on all object subsets); theorem so far: every candidate is a closed extent strictly above.' + PARTIAL_NOTE % 'C05',
+            'differential correspondence against a Coq model; partial proof', '7 C05'),
+    'C06': ('Model of the heap order, index/dindex ranks and neighbour sorting (also for lattices reloaded from permuted '
+            'serialisations) evaluated against the implementation; theorem so far: the sort key order is a strict total order.' + PARTIAL_NOTE % 'C06',
+            'differential correspondence against a Coq model; partial proof', '7 C06'),
+    'C07': ('Theorems: double() is the closure; closure of the union is the least closed extent above both (lub), the intersection is '
+            'closed, fixed by double() and the glb; n-ary forms; x<=y iff join is y iff meet is x. Ties: matrices.double and '
+            'lattice_members.join/meet regenerated from source. Final mapping lookup rests on C03.' + PARTIAL_NOTE % 'C07',
+            'proof + regenerated kernels + differential correspondence', '7 C07'),
     'C08': ('Theorems for all in-range extents: each of the 8 predicates <-> its set-theoretic meaning; order by extents <-> '
             'reverse order of intents on concepts; reflexive, transitive, antisymmetric. Tie: the 8 one-liners are '
             'regenerated from source (reflexivity) + correspondence over all ordered concept pairs.',
             'proof + regenerated kernel + differential correspondence', '7 C08'),
+    'C09': ('Model of iterunion / tools.maximal / upset / downset / unions evaluated against the implementation (all concepts, '
+            'pairs, multisets, interleaved and abandoned traversals); theorem so far: empty collection yields nothing.' + PARTIAL_NOTE % 'C09',
+            'differential correspondence against a Coq model; partial proof', '7 C09'),
+    'C10': ('Model of _annotate and the atoms tuples evaluated against the implementation; theorems so far: an object is filed '
+            'under the extent {o}\'\' and a property under {p}\'.' + PARTIAL_NOTE % 'C10',
+            'differential correspondence against a Coq model; partial proof', '7 C10'),
+    'C18': ('Model of the shortlex powerset and the prime() filter evaluated against the implementation; theorem so far: empty '
+            'extent case.' + PARTIAL_NOTE % 'C18',
+            'differential correspondence against a Coq model; partial proof', '7 C18'),
+    'C20': ('Abstract DOT body model; theorems: exactly one node per concept named by its index, plain edges exactly concept -> each '
+            'lower neighbour; labels and covers rest on C10/C05. graphviz line syntax/quoting not modelled (body parsed).' + PARTIAL_NOTE % 'C20',
+            'proof on the abstract body + parsed correspondence', '7 C20'),
 }
 
 ALL = [f'C{i:02d}' for i in range(1, 21)]
